@@ -18,7 +18,7 @@ LEVEL = 'exploration'
 RULE = ('full product: 14 list kinds (single / same layout / nested, interleaved and disjoint configuration subsets / replica '
         'subsets / two ensembles / covariance inputs dim 1..3 shared or not / count data with zeros / a sample equal to the '
         'mean / strided and large configuration numbers / 4-entry mixtures) x separator_insertion {True, None, False, int, str} '
-        'x {string, file gz, file plain} for dobs; every 2- and 3-subset (thorough: 4-subset) of a 17-observable pool (incl. trap pairs: same length and end points, different interior) in one file; 6 list kinds x {None, int, str} x {gz, plain} for pobs.  Non-trivial = '
+        'x {string, file gz, file plain} for dobs; every 2- and 3-subset (thorough: 4-subset) of a 17-observable pool (incl. trap pairs: same length and end points, different interior) in one file; 6 list kinds x {None, int, str} x {gz, plain} for pobs; all ordered pairs of 14 layouts of one ensemble in one pobs file (refused or faithful).  Non-trivial = '
         'every case except the single-observable single-chain list')
 ASSUMPTIONS = ['names are compared exactly when the separator mode restores the "|", else after removing "|" (documented treatment)',
                'covariance matrices / gradients to 1e-12 relative (the format prints 15 digits), fluctuations to 1e-13 of the chain scale']
@@ -73,6 +73,13 @@ def lists(pe):
     out['mixture'] = [prim(pe, {'A|r1': 'c12', 'A|r2': 'ev'}, 'x0') * cv1, prim(pe, {'A|r2': 'od'}, 'x1', 'count'), prim(pe, {'B|r1': 'trA'}, 'x2') * cv3[1],
                       prim(pe, {'A|r1': 'sh'}, 'x3') + prim(pe, {'B|r1': 'trB'}, 'x4')]
     out['bare-name'] = [prim(pe, {'A': 'c8'}, 'bn0'), prim(pe, {'A': 'irr'}, 'bn1')]
+    # an observable that is constant on one whole replica (all 0, all 3) while it fluctuates on another one
+    r = alpha.rng('c12', 'const-rep')
+    c8, ev, c12 = list(alpha.CFG['c8']), list(alpha.CFG['ev']), list(alpha.CFG['c12'])
+    out['constant-on-replica'] = [
+        pe.Obs([np.round(r.normal(2, 1.5, len(c12))) + 0.25, np.zeros(len(c8))], ['A|r1', 'A|r2'], idl=[range(1, 13), range(1, 9)]),
+        pe.Obs([np.full(len(c8), 3.0), np.round(r.normal(1, 1.5, len(ev))) + 0.125], ['A|r1', 'A|r2'], idl=[range(1, 9), alpha.idl_carrier(ev)]),
+        pe.Obs([np.round(r.normal(0, 1.5, len(c8))) + 0.25, np.full(len(c12), -1.0), np.zeros(len(c8))], ['A|r1', 'A|r2', 'A|r3'], idl=[range(1, 9), range(1, 13), range(1, 9)])]
     return out
 
 
@@ -159,8 +166,11 @@ MODES = [True, None, False, 1, 'r']
 
 def build(tier, seed):
     cases = [{'kind': 'dobs', 'list': k} for k in ['single', 'same-layout', 'nested', 'interleaved', 'disjoint', 'replica-subsets', 'two-ensembles',
-                                                   'cov', 'cov-shared', 'count-zeros', 'sample-equals-mean', 'big-strided', 'mixture', 'bare-name']]
+                                                   'cov', 'cov-shared', 'count-zeros', 'sample-equals-mean', 'big-strided', 'mixture', 'bare-name', 'constant-on-replica']]
     cases += [{'kind': 'pobs', 'list': k} for k in ['single', 'three', 'replicas', 'count-zeros', 'big', 'bare-name']]
+    # pobs files whose observables differ in their configuration lists / replica sets: the format has one configuration
+    # column per replica, so such a list is either refused on export or comes back faithfully - never re-labelled
+    cases.append({'kind': 'pobs-pairs'})
     ks = (2, 3) if tier == 'quick' else (2, 3, 4)
     for k in ks:
         combos = list(itertools.combinations(range(17), k))
@@ -179,6 +189,8 @@ def run_case(case):
                 run_dobs(pe, acc, case, d)
             elif case['kind'] == 'combos':
                 run_combos(pe, acc, case)
+            elif case['kind'] == 'pobs-pairs':
+                run_pobs_pairs(pe, acc, case, d)
             else:
                 run_pobs(pe, acc, case, d)
     finally:
@@ -270,6 +282,44 @@ def run_pobs(pe, acc, case, d):
         except Exception:
             acc.ok(('pobs-ref', case['list'], nm), True, 'refused')
     acc.sample({'kind': 'pobs', 'list': case['list'], 'modes': ['None', '1', "'r'"]})
+
+
+def run_pobs_pairs(pe, acc, case, d):
+    lays = [{'A|r1': 'c12'}, {'A|r1': 'c8'}, {'A|r1': 'ev'}, {'A|r1': 'od'}, {'A|r1': 'irr'}, {'A|r1': 'eqA'}, {'A|r1': 'eqB'}, {'A|r1': 'eqC'}, {'A|r1': 'eqD'},
+            {'A|r2': 'c12'}, {'A|r1': 'c12', 'A|r2': 'c8'}, {'A|r1': 'c8', 'A|r2': 'c8'}, {'A|r1': 'c12', 'A|r2': 'suf'}, {'A|r1': 'c12', 'A|r3': 'c8'}]
+    pool = [prim(pe, l, 'pp%d' % i, mean=1.0 + 0.3 * i) for i, l in enumerate(lays)]
+    for i, j in itertools.product(range(len(pool)), repeat=2):
+        if 'pair' in case and case['pair'] != [i, j]:
+            continue
+        ol = [pool[i], pool[j]]
+        sub = dict(case, pair=[i, j])
+        fn = os.path.join(d, 'pp')
+        try:
+            pe.input.dobs.write_pobs(ol, fn, 'name', gz=False)
+        except Exception:
+            if lays[i] == lays[j]:
+                acc.fail('pobs-pairs:raised', sub, 'write_pobs refused two observables on the same layout %s' % alpha.lname(lays[i]))
+            else:
+                acc.ok(('pobs-pair', i, j), True, 'pobs-pair-refused')
+            continue
+        try:
+            back = pe.input.dobs.read_pobs(fn, gz=False, separator_insertion=1)
+            bad = None if len(back) == 2 else '%d observables' % len(back)
+            for k, (a, b) in enumerate(zip(ol, back)):
+                bad = bad or same(a, b, name_map(1, list(a.deltas)), pe)
+                if bad:
+                    bad = 'observable %d: %s' % (k, bad)
+                    break
+        except Exception as e:
+            bad = 'reading back raised %s: %s' % (type(e).__name__, e)
+        finally:
+            if os.path.exists(fn + '.xml'):
+                os.remove(fn + '.xml')
+        if bad:
+            acc.fail('pobs-pairs', sub, 'pobs file of two observables on %s and %s was written but does not come back: %s' % (alpha.lname(lays[i]), alpha.lname(lays[j]), bad))
+        else:
+            acc.ok(('pobs-pair', i, j), lays[i] != lays[j], 'pobs-pair-roundtrip')
+    acc.sample({'kind': 'pobs-pairs', 'layouts': [alpha.lname(l) for l in lays], 'pairs': 'all ordered'})
 
 
 def run_combos(pe, acc, case):
